@@ -232,11 +232,24 @@ def run(ctx):
               f"scatter loop is {[norm(n.iter) for n in sc]}")
     # names / indices / header agreement ------------------------------------------------------
     env = {norm(n.targets[0]): norm(n.value) for n in walk_no_nested(c.node) if isinstance(n, ast.Assign)}
-    ok = env.get("vidxs1") == "[pck1.fields[v] for v in vars1]" and env.get("vidxs2") == "[pck2.fields[v] for v in vars2]" \
-        and env.get("cbvars") == "clean_args['cbvars']" and env.get("nfields") == "len(cbvars)" and \
-        env.get("(vars1, vars2)") == "(clean_args['vars1'], clean_args['vars2'])"
+    # what the generators and the level-header rewrite receive as vidxs1 / vidxs2, whatever the locals are called
+    denv = rules.local_env(c.node)
+    got = set()
+    for cl in walk_no_nested(c.node):
+        if isinstance(cl, ast.Call):
+            kw = {k.arg: k.value for k in cl.keywords if k.arg}
+            if "vidxs1" in kw or "vidxs2" in kw:
+                got.add((rules.deep(kw.get("vidxs1"), denv, c.params), rules.deep(kw.get("vidxs2"), denv, c.params)))
+    names = {k: rules.deep(ast.parse(k, mode="eval").body, denv, c.params) for k in ("vars1", "vars2", "cbvars", "nfields")}
+    want = {("[pck1.fields[v] for v in vars1]", "[pck2.fields[v] for v in vars2]"),
+            ("[pck1.fields[v] for v in clean_args['vars1']]", "[pck2.fields[v] for v in clean_args['vars2']]")}
+    ok = bool(got) and got <= want and names["cbvars"] in ("clean_args['cbvars']", "cbvars") and \
+        names["nfields"] in ("len(clean_args['cbvars'])", "len(cbvars)") and \
+        (env.get("(vars1, vars2)") == "(clean_args['vars1'], clean_args['vars2'])" or
+         (names["vars1"], names["vars2"]) == ("clean_args['vars1']", "clean_args['vars2']"))
     ctx.check(ok, f"{P}.ORDER", c.site, "indices of side k are looked up in plotfile k's own field table, in the order "
-                                        "of the selected names", f"index construction is {env}", key="vidxs")
+                                        "of the selected names", f"index construction: the generators receive {sorted(got)}; "
+                                        f"names are {names}", key="vidxs")
     v = prog.func(CB, "validate_combine_input", P)
     venv = {norm(n.targets[0]): norm(n.value) for n in walk_no_nested(v.node) if isinstance(n, ast.Assign)}
     ok = venv.get("output['cbvars']") == "vars1 + vars2" and venv.get("output['vars1']") == "vars1" and \
@@ -338,8 +351,10 @@ def run(ctx):
     rw = prog.func(CB, "rewrite_level_header", P)
     headers.rewriter_rules(ctx, P, rw, "nfields", "mapped_offsets", minmax_rules, src_handles=("ch_r1", "ch_r2"))
     rc = [n for n in walk_no_nested(c.node) if isinstance(n, ast.Call) and norm(n.func) == "rewrite_level_header"]
-    ok = len(rc) == 1 and [norm(a) for a in rc[0].args] == ["pck1", "pck2", "pltout", "lv", "nfields", "mapped_offsets",
-                                                            "vidxs1", "vidxs2"] and \
+    rargs = [rules.deep(a, denv, c.params) for a in rc[0].args] if len(rc) == 1 else []
+    ok = len(rc) == 1 and len(rargs) == 8 and rargs[:2] == ["pck1", "pck2"] and rargs[3] == "lv" and \
+        rargs[4] in ("len(clean_args['cbvars'])", "nfields", "len(cbvars)") and rargs[5] == "mapped_offsets" and \
+        (rargs[6], rargs[7]) in want | {("vidxs1", "vidxs2")} and \
         rw.params == ["pck1", "pck2", "pltout", "lv", "nfields", "mapped_offsets", "field_indices1", "field_indices2"]
     ctx.check(ok, f"{P}.SIDE-COH", c.site, "level-header rewrite receives (vidxs1, vidxs2) as (field_indices1, "
                                            "field_indices2)", "rewrite_level_header call / signature changed", key="rw-call")
